@@ -130,6 +130,16 @@ def split_traces(events, jid, cap_default):
         elif n == "sp2.iter":
             cur["sp2_iters"] += 1
             cur["sp2_max_k"] = max(cur["sp2_max_k"], e["k"])
+            if "mask" in e:
+                calls = cur.setdefault("sp2_calls", [])
+                if e["k"] == 1:
+                    calls.append({"n": len(e["mask"]), "ev": [], "_dig": None})
+                if calls:
+                    c = calls[-1]
+                    dig = e["adig"]
+                    changed = [i + 1 for i in range(len(dig)) if c["_dig"] is None or dig[i] != c["_dig"][i]]
+                    c["_dig"] = dig
+                    c["ev"].append({"k": e["k"], "after": [i + 1 for i, x in enumerate(e["mask"]) if x], "changed": changed})
         elif n == "scf.iter":
             idx = lambda b: [i + 1 for i, x in enumerate(b) if x]  # noqa: E731
             dig = e["pdig"]
@@ -153,10 +163,14 @@ def split_traces(events, jid, cap_default):
             changed = [i + 1 for i in range(len(dig)) if cur["_dig"] is not None and dig[i] != cur["_dig"][i]]
             cur["ev"].append({"name": "end", "ret": [i + 1 for i, x in enumerate(e["notconverged"]) if x], "changed": changed})
             del cur["_dig"]
+            for c in cur.get("sp2_calls", []):
+                c.pop("_dig", None)
             traces.append(cur)
             cur = None
     if cur is not None:  # span cut short (exception / budget)
         del cur["_dig"]
+        for c in cur.get("sp2_calls", []):
+            c.pop("_dig", None)
         cur["truncated"] = True
         traces.append(cur)
     return traces
